@@ -68,7 +68,7 @@ Qed.
 (* (d) the peer's receive window is exhausted (its application has not read yet): a datagram that arrives, in order, on a
    loss-free network is dropped by inputData; the closer has discarded sendBuf; the close request is acted upon.
    Scaled down: capacity 2 instead of segmentTreeCapacity; the driver shows it with 4097 one-segment writes. *)
-Definition udp3_rcap2 : cfg := mkCfg UDP 3 close_wait_iterations true false 16 0 2.
+Definition udp3_rcap2 : cfg := mkCfg UDP 3 close_wait_iterations true false 16 0 2 true.
 Definition w_udp_rwindow : list choice :=
   [CWrite; CWrite; CWrite; CClose; ONew; ONew; ONew; ONew; CTick; DUdp 0; DUdp 1; DUdp 2; DUdp 3; RTest; RTest; RTest; RWaitClosed].
 
@@ -210,6 +210,9 @@ Lemma inv_set_sender : forall a c st w q b ns ls ph tk cs ol tn un,
   INV a c st -> INV a c (set_sender st w q b ns ls ph tk cs ol tn un).
 Proof. intros. exact H. Qed.
 
+Lemma inv_set_inflight : forall a c st q x ol, INV a c st -> INV a c (set_inflight st q x ol).
+Proof. intros. exact H. Qed.
+
 Lemma inv_finish : forall a c st, INV a c st -> INV a c (finish st).
 Proof. intros. exact H. Qed.
 
@@ -265,6 +268,8 @@ Proof.
   - (* CForce *) des H; inversion H; subst; apply inv_finish; apply inv_set_sender; assumption.
   - (* OStart *) des H. inversion H; subst. apply inv_set_sender; assumption.
   - (* OSeg *) des H; inversion H; subst; apply inv_set_sender; assumption.
+  - (* ODeq *) des H; inversion H; subst; apply inv_set_inflight; assumption.
+  - (* OOut *) des H; inversion H; subst; apply inv_set_inflight; apply inv_set_sender; assumption.
   - (* ONew *) des H. inversion H; subst. apply inv_set_sender; assumption.
   - (* ORetx *) des H. inversion H; subst. apply inv_set_sender; assumption.
   - (* OAck *) des H; inversion H; subst; apply inv_set_sender; assumption.
@@ -393,4 +398,277 @@ Proof.
   do 5 (split; [reflexivity|]).
   eexists. split; [vm_compute; reflexivity|].
   split; [vm_compute; reflexivity|]. split; reflexivity.
+Qed.
+
+(* ------------------------------------------------------------------ lock discipline of the TCP output loop *)
+From Coq Require Import Sorted.
+
+(* what the closer still has to put on the stream, in the order in which it will leave *)
+Definition pending (st : state) : list seg :=
+  match inflight st with Some s => s :: queue st | None => queue st end.
+
+Definition seq_le (a b : seg) : Prop := seq_of a <= seq_of b.
+
+(* sender-side invariant on TCP (both lock disciplines) *)
+Definition TINV (st : state) : Prop :=
+  StronglySorted seq_le (pending st) /\
+  (forall s, In s (pending st) -> lastSend st <= seq_of s /\ seq_of s < nextSend st) /\
+  lastSend st <= nextSend st /\
+  (cph st <> COpen -> closeSeq st < nextSend st /\ forall s, In s (pending st) -> is_data s = true -> seq_of s < closeSeq st).
+
+(* with the code's discipline a segment in flight means that oLock is held *)
+Definition LINV (c : cfg) (st : state) : Prop :=
+  c_lockdrain c = true -> inflight st <> None -> olock st = true.
+
+Lemma ssorted_snoc : forall l x, StronglySorted seq_le l -> (forall s, In s l -> seq_le s x) -> StronglySorted seq_le (l ++ [x]).
+Proof.
+  induction l as [|a l IH]; intros x Hs Hx; cbn.
+  - constructor; constructor.
+  - inversion Hs as [|? ? Hs' Hf]; subst. constructor.
+    + apply IH; [assumption|]. intros s Hin. apply Hx. right; assumption.
+    + apply Forall_app. split; [assumption|]. constructor; [|constructor]. apply Hx. left; reflexivity.
+Qed.
+
+Lemma tinv_init : TINV init.
+Proof.
+  unfold TINV, pending; cbn. repeat split; try constructor; try (intros; contradiction); try lia.
+  all: try (exfalso; match goal with H : COpen <> COpen |- _ => apply H; reflexivity end).
+Qed.
+
+Lemma linv_init : forall c, LINV c init.
+Proof. intros c _ H. exfalso. apply H. reflexivity. Qed.
+
+Lemma no_inflight_true : forall st, no_inflight st = true -> inflight st = None.
+Proof. intros st. unfold no_inflight. destruct (inflight st); [discriminate | reflexivity]. Qed.
+
+Lemma linv_step : forall c st ch st', LINV c st -> step c st ch = Some st' -> LINV c st'.
+Proof.
+  intros c st ch st' L H Hl.
+  assert (Lf : olock st = false -> inflight st = None).
+  { intro Ho. destruct (inflight st) eqn:E; [|reflexivity]. rewrite (L Hl) in Ho; [discriminate | congruence]. }
+  destruct ch; unfold step in H; des H; inversion H; subst; clear H; cbn; intro Hin;
+    try (apply (L Hl); exact Hin);
+    try (unfold recv_input in Hin |- *; des Hin; cbn in *; apply (L Hl); exact Hin).
+  all: try (exfalso; apply Hin; apply Lf;
+            repeat match goal with E : (_ && _) = true |- _ => apply andb_true_iff in E; destruct E end;
+            match goal with E : negb (olock _) = true |- _ => apply negb_true_iff in E; exact E end).
+  all: try reflexivity.
+  all: try (exfalso; apply Hin; reflexivity).
+  all: try (repeat match goal with E : (_ && _) = true |- _ => apply andb_true_iff in E; destruct E end;
+            match goal with E : Bool.eqb (olock _) (c_lockdrain _) = true |- _ => apply Bool.eqb_prop in E; congruence end).
+  all: try (exfalso; apply Hin;
+            repeat match goal with E : (_ && _) = true |- _ => apply andb_true_iff in E; destruct E end;
+            match goal with E : no_inflight _ = true |- _ => apply no_inflight_true in E; destruct (c_tr c); cbn; exact E end).
+Qed.
+
+Lemma tinv_same : forall st st', TINV st ->
+  pending st' = pending st -> lastSend st' = lastSend st -> nextSend st' = nextSend st -> closeSeq st' = closeSeq st ->
+  (cph st' <> COpen -> cph st <> COpen) -> TINV st'.
+Proof.
+  intros st st' (S & B & C & A) Hp Hl Hn Hc Hph. unfold TINV. rewrite Hp, Hl, Hn, Hc.
+  repeat split; try assumption; try (apply B; assumption).
+  - apply A. apply Hph. assumption.
+  - intros s Hin Hd. apply (proj2 (A (Hph H))); assumption.
+Qed.
+
+Lemma recv_sender_same : forall c st s,
+  queue (recv_input c st s) = queue st /\ inflight (recv_input c st s) = inflight st /\ lastSend (recv_input c st s) = lastSend st /\
+  nextSend (recv_input c st s) = nextSend st /\ closeSeq (recv_input c st s) = closeSeq st /\ cph (recv_input c st s) = cph st.
+Proof.
+  intros c st s. unfold recv_input.
+  repeat match goal with |- context [match ?x with _ => _ end] => destruct x end; cbn; repeat split; reflexivity.
+Qed.
+
+Lemma pending_recv : forall c st s, pending (recv_input c st s) = pending st.
+Proof. intros c st s. unfold pending. destruct (recv_sender_same c st s) as (Hq & Hi & _). rewrite Hq, Hi. reflexivity. Qed.
+
+Lemma tinv_recv : forall c st s, TINV st -> TINV (recv_input c st s).
+Proof.
+  intros c st s T. destruct (recv_sender_same c st s) as (Hq & Hi & Hl & Hn & Hc & Hp).
+  apply (tinv_same st); try assumption. apply pending_recv. rewrite Hp; auto.
+Qed.
+
+(* removing the head of what is pending and recording it as sent *)
+Lemma tinv_pop : forall st st' s rest, TINV st -> pending st = s :: rest -> pending st' = rest ->
+  lastSend st' = seq_of s -> nextSend st' = nextSend st -> closeSeq st' = closeSeq st -> cph st' = cph st -> TINV st'.
+Proof.
+  intros st st' s rest (S & B & C & A) Hp Hp' Hl Hn Hc Hph. unfold TINV. rewrite Hp', Hl, Hn, Hc, Hph. rewrite Hp in *.
+  inversion S as [|? ? S' F]; subst.
+  repeat split.
+  - assumption.
+  - rewrite Forall_forall in F. apply F; assumption.
+  - apply B. right; assumption.
+  - assert (X := B s (or_introl eq_refl)). lia.
+  - apply A; assumption.
+  - intros x Hin Hd. apply (proj2 (A H)); [right; assumption | assumption].
+Qed.
+
+Lemma tinv_push : forall st st' x, TINV st -> pending st' = pending st ++ [x] -> seq_of x = nextSend st ->
+  lastSend st' = lastSend st -> nextSend st' = nextSend st + 1 ->
+  (cph st' <> COpen -> closeSeq st' < nextSend st' /\ forall s, In s (pending st ++ [x]) -> is_data s = true -> seq_of s < closeSeq st') ->
+  TINV st'.
+Proof.
+  intros st st' x (S & B & C & A) Hp Hx Hl Hn HA. unfold TINV. rewrite Hp, Hl, Hn.
+  repeat split.
+  - apply ssorted_snoc; [assumption|]. intros s Hin. unfold seq_le. destruct (B s Hin). lia.
+  - apply in_app_or in H. destruct H as [H | [H | []]]; [apply B; assumption | subst; lia].
+  - apply in_app_or in H. destruct H as [H | [H | []]]; [destruct (B s H); lia | subst; lia].
+  - lia.
+  - rewrite <- Hn. apply (proj1 (HA H)).
+  - intros s Hin Hd. apply (proj2 (HA H)); assumption.
+Qed.
+
+Lemma tinv_finish : forall st, TINV st -> cph st <> COpen -> TINV (finish st).
+Proof.
+  intros st (S & B & C & A) Hph. destruct (A Hph) as [A1 A2].
+  unfold TINV, pending in *. cbn.
+  destruct (inflight st) as [s|] eqn:E.
+  - repeat split; try assumption.
+    + constructor; constructor.
+    + destruct H as [H | []]; subst. apply (B s0). left; reflexivity.
+    + destruct H as [H | []]; subst. apply (B s0). left; reflexivity.
+    + intros x [H0 | []] Hd; subst. apply A2; [left; reflexivity | assumption].
+  - repeat split; try assumption; try (intros; contradiction); try constructor.
+    all: try (destruct H as []).
+    all: intros x [].
+Qed.
+
+Ltac pend := unfold pending; cbn; repeat match goal with E : queue _ = _ |- _ => rewrite E end;
+             repeat match goal with E : inflight _ = _ |- _ => rewrite E end; reflexivity.
+Ltac same st := apply (tinv_same st); try reflexivity; try assumption; try pend; cbn; auto.
+
+Lemma tinv_step : forall c st ch st', is_tcp c = true -> TINV st -> step c st ch = Some st' -> TINV st'.
+Proof.
+  intros c st ch st' Htcp T H.
+  destruct ch; unfold step in H; rewrite ?Htcp in H; cbn [negb andb] in H.
+  - (* CWrite *) des H. inversion H; subst; clear H.
+    apply (tinv_push st _ (Data (nextSend st))); try reflexivity; try assumption.
+    + unfold pending; cbn. destruct (inflight st); reflexivity.
+    + cbn. intro X. exfalso. apply X. reflexivity.
+  - (* CClose *) des H. inversion H; subst; clear H.
+    apply (tinv_push st _ (CloseReq (nextSend st))); try reflexivity; try assumption.
+    + unfold pending; cbn. destruct (inflight st); reflexivity.
+    + cbn. intros _. split; [lia|]. intros s Hin Hd. apply in_app_or in Hin. destruct Hin as [Hin | [Hin | []]].
+      * destruct T as (_ & B & _). apply B. assumption.
+      * subst. discriminate.
+  - (* CTick *) des H; inversion H; subst; clear H.
+    + apply tinv_finish; [assumption | congruence].
+    + apply (tinv_same st); try reflexivity; try assumption. cbn. congruence.
+    + apply (tinv_same st); try reflexivity; try assumption. cbn. congruence.
+  - (* CForce *) des H; inversion H; subst; clear H.
+    all: try (unfold is_tcp in Htcp; rewrite Heqt in Htcp; discriminate).
+    apply andb_true_iff in Heqb. destruct Heqb as [_ Hni]. apply no_inflight_true in Hni.
+    destruct T as (S & B & C & A). assert (Hph : cph st <> COpen) by congruence. destruct (A Hph) as [A1 A2].
+    unfold TINV, pending; cbn. rewrite Hni. repeat split; try constructor; try (intros; contradiction); try lia.
+    all: try (destruct H as []).
+    all: try (intros x []).
+  - (* OStart *) des H. inversion H; subst; clear H. same st.
+  - (* OSeg *) des H; inversion H; subst; clear H.
+    + same st.
+    + apply andb_true_iff in Heqb. destruct Heqb as [_ Hni]. apply no_inflight_true in Hni.
+      apply (tinv_pop st _ s l); try reflexivity; try assumption.
+      * unfold pending. rewrite Hni. assumption.
+      * unfold pending; cbn. rewrite Hni. reflexivity.
+  - (* ODeq *) des H; inversion H; subst; clear H.
+    all: apply andb_true_iff in Heqb; destruct Heqb as [Hni _]; apply no_inflight_true in Hni.
+    + same st.
+    + same st.
+  - (* OOut *) des H; inversion H; subst; clear H.
+    apply (tinv_pop st _ s (queue st)); try reflexivity; try assumption.
+    unfold pending. rewrite Heqo. reflexivity.
+  - (* ONew *) discriminate.
+  - (* ORetx *) discriminate.
+  - (* OAck *) discriminate.
+  - (* DTcp *) des H. inversion H; subst; clear H. apply tinv_recv. same st.
+  - (* DUdp *) des H. inversion H; subst; clear H. apply tinv_recv. assumption.
+  - (* DAck *) des H. inversion H; subst; clear H. same st.
+  - des H; inversion H; subst; clear H; same st.
+  - des H; inversion H; subst; clear H; same st.
+  - des H; inversion H; subst; clear H; same st.
+  - des H; inversion H; subst; clear H; same st.
+  - des H; inversion H; subst; clear H; same st.
+  - des H; inversion H; subst; clear H; same st.
+  - des H; inversion H; subst; clear H; same st.
+Qed.
+
+Lemma tinv_run : forall c sched st st', is_tcp c = true -> TINV st -> run c st sched = Some st' -> TINV st'.
+Proof.
+  intros c sched. induction sched as [|ch rest IH]; intros st st' Htcp T H; cbn in H.
+  - inversion H; subst; assumption.
+  - destruct (step c st ch) as [st1|] eqn:S; [|discriminate]. apply (IH st1 st' Htcp); [|assumption].
+    eapply tinv_step; eassumption.
+Qed.
+
+Lemma linv_run : forall c sched st st', LINV c st -> run c st sched = Some st' -> LINV c st'.
+Proof.
+  intros c sched. induction sched as [|ch rest IH]; intros st st' L H; cbn in H.
+  - inversion H; subst; assumption.
+  - destruct (step c st ch) as [st1|] eqn:S; [|discriminate]. apply (IH st1 st'); [|assumption].
+    eapply linv_step; eassumption.
+Qed.
+
+(* The code's lock discipline (c_lockdrain = true), every schedule: while a segment is between DeleteMin and the completion of
+   its output(), oLock is held and the fallback of closeWithError (CForce: write the close request directly, then DeleteAll) is not
+   enabled - it can neither overtake that segment nor drop what is queued behind it. *)
+Theorem tcp_close_fallback_never_overtakes_inflight : forall c sched st,
+  is_tcp c = true -> c_lockdrain c = true -> run c init sched = Some st -> inflight st <> None ->
+  olock st = true /\ step c st CForce = None.
+Proof.
+  intros c sched st Htcp Hl H Hin.
+  assert (L : LINV c st) by (eapply linv_run; [apply linv_init | exact H]).
+  split; [exact (L Hl Hin)|]. apply tcp_force_needs_olock. exact (L Hl Hin).
+Qed.
+
+Lemma recv_discarded : forall c st s, discarded (recv_input c st s) = discarded st.
+Proof.
+  intros c st s. unfold recv_input.
+  repeat match goal with |- context [match ?x with _ => _ end] => destruct x end; reflexivity.
+Qed.
+
+(* TCP, either discipline, every schedule: the fallback is the ONLY step that discards data.  In particular the regular end of the
+   wait (lastSend >= closeRequestSeq) never does: by then the loop has written the close request, which is the last thing queued. *)
+Theorem tcp_only_fallback_discards : forall c sched st ch st',
+  is_tcp c = true -> run c init sched = Some st -> step c st ch = Some st' -> ch <> CForce -> discarded st' = discarded st.
+Proof.
+  intros c sched st ch st' Htcp Hr H Hch.
+  assert (T : TINV st) by (eapply tinv_run; [exact Htcp | apply tinv_init | exact Hr]).
+  destruct ch; try (exfalso; apply Hch; reflexivity); unfold step in H; des H; inversion H; subst; clear H; cbn;
+    rewrite ?recv_discarded; cbn; try reflexivity.
+  (* CTick, regular end of the wait *)
+  destruct T as (_ & B & _ & A). assert (Hph : cph st <> COpen) by congruence. destruct (A Hph) as [_ A2].
+  replace (existsb is_data (queue st)) with false; [apply orb_false_r|]. symmetry.
+  apply not_true_is_false. intro E. apply existsb_exists in E. destruct E as (s & Hin & Hd).
+  assert (Hp : In s (pending st)) by (unfold pending; destruct (inflight st); [right|]; assumption).
+  specialize (A2 s Hp Hd). destruct (B s Hp) as [B1 _]. apply N.leb_le in Heqb. lia.
+Qed.
+
+(* ---- the variant that releases oLock before output() (c_lockdrain = false) *)
+Definition tcp3_unlocked : cfg := mkCfg TCP 3 close_wait_iterations true false 0 0 segment_tree_capacity false.
+
+(* segment 0 is inside a stalled conn.Write for the whole wait, 1 and 2 are queued behind it; the stall ends, the fallback gets in
+   before the loop's next DeleteMin: the close request follows segment 0, segments 1 and 2 are dropped *)
+Definition w_tcp_unlocked : list choice :=
+  [CWrite; CWrite; CWrite; CClose; ODeq] ++ repeat_choice CTick (N.to_nat close_wait_iterations) ++
+  [OOut; CForce; DTcp; DTcp; RTest; RTest; RWaitClosed].
+
+Lemma tcp_unlocked_output_refuted :
+  exists sched st, run tcp3_unlocked init sched = Some st /\ clean_truncation tcp3_unlocked st /\ discarded st = true
+                   /\ tcpnet st = [] /\ read_so_far st = [0] /\ ticks st = close_wait_iterations.
+Proof.
+  exists w_tcp_unlocked. eexists. split; [vm_compute; reflexivity|].
+  repeat split; try reflexivity. exists [1; 2]. split; [discriminate | reflexivity].
+Qed.
+
+(* the same stall on the code as it is: the loop holds oLock (OStart), the fallback has to wait until the queue is empty,
+   the close request it then writes is a harmless duplicate *)
+Definition w_tcp_stall_now : list choice :=
+  [CWrite; CWrite; CWrite; CClose; OStart; ODeq] ++ repeat_choice CTick (N.to_nat close_wait_iterations) ++
+  [OOut; ODeq; OOut; ODeq; OOut; ODeq; OOut; ODeq; CForce; DTcp; DTcp; DTcp; DTcp; RTest; RTest; RTest; RTest; RWaitClosed].
+
+Lemma tcp_stall_now_example :
+  (exists st, run tcp3 init ([CWrite; CWrite; CWrite; CClose; OStart; ODeq] ++ repeat_choice CTick (N.to_nat close_wait_iterations) ++ [OOut]) = Some st
+              /\ cph st = CExpired /\ queue st = [Data 1; Data 2; CloseReq 3] /\ step tcp3 st CForce = None) /\
+  (exists st, run tcp3 init w_tcp_stall_now = Some st /\ rd st = REof /\ complete tcp3 st /\ discarded st = false).
+Proof.
+  split; eexists; (split; [vm_compute; reflexivity|]); repeat split; reflexivity.
 Qed.
